@@ -16,6 +16,19 @@ VAR_VALUES = {
     "path": ["/x", "/x/y", "rel"],
     "odict": [[], [["a", 1]], [["a", 1], ["b", 2]], [["b", 2], ["a", 1]]],
 }
+_PARTNERS = [([[1], [2]], [[1], [3]]), ([{"a": 1}], [{"a": 2}]), ({"w": {"x": 1}}, {"w": {"x": 2}}), ({"w": [1, 2]}, {"w": [1, 3]})]
+
+
+def nested_partner(value):
+    """The value of the same shape that differs only inside a nested container (what an in-place update produces)."""
+    for a, b in _PARTNERS:
+        if value == a:
+            return b
+        if value == b:
+            return a
+    return None
+
+
 CONSERVATIVE_KINDS = ["int", "str", "float", "list", "dict"]
 ALL_KINDS = list(VAR_VALUES)
 
@@ -23,7 +36,8 @@ ALL_KINDS = list(VAR_VALUES)
 LITERALS = [0, 1, 2, 7, -1, "a", "b", "", None, True, False, 0.5, 0.0, 1.0, 2.0, "1", "0"]
 SAFE_LITERALS = [1, 2, 7, -1, "a", "b", 0.5]
 
-PATH_POOL = ["/a", "/b", "/c", "/d/e", "/d/f", "/g/h/i", "/g/h/j", "/k", "/l/m", "/n", "/o/p/q/r", "/s"]
+# (/lib and /bin are symbolic links on the host - /lib -> usr/lib: a dds path is a name, not a file of the host)
+PATH_POOL = ["/a", "/b", "/c", "/d/e", "/d/f", "/g/h/i", "/g/h/j", "/k", "/l/m", "/n", "/o/p/q/r", "/s", "/lib/q", "/bin/w/z"]
 
 
 def default_feat():
@@ -93,6 +107,8 @@ def _swarm_feat(cfg):
     f["rtcalls"] = cfg.random() < 0.6
     f["rec_builtin"] = cfg.random() < 0.4
     f["joins"] = cfg.random() < 0.4
+    f["threads"] = cfg.random() < 0.2
+    f["tmpl"] = cfg.random() < 0.15
     f["lazy"] = cfg.random() < 0.12
     f["phelpers"] = cfg.random() < 0.2
     f["pathspell"] = cfg.random() < 0.15
@@ -141,7 +157,7 @@ def gen_program(rng, feat):
         if kind == "data":
             f["path"] = paths.pop()
             if feat["pathvars"] and rng.random() < 0.4:
-                f["pathform"] = "var"
+                f["pathform"] = rng.choice(["var", "var", "obj"])
             if feat["defaults"] and rng.random() < 0.3:
                 # a data function may have parameters as long as all of them have defaults (it is called without arguments)
                 f["params"] = [[f"a{k}", _lit(rng, feat)] for k in range(rng.randint(1, 2))]
@@ -187,6 +203,10 @@ def gen_program(rng, feat):
         # read variables and call plain helpers / other classes
         kept = funcs[names[j]]["kind"] in ("target", "data")
         cands = [i for i in range(0, j) if not (kept and funcs[names[i]]["kind"] == "class")]
+        if funcs[names[j]]["kind"] == "target":
+            # a helper with a parameter is context-dependent like a class: a keep call inside it would get one signature
+            # per call site (the same path kept twice in one evaluation when two callers share the helper)
+            cands = [i for i in cands if not funcs[names[i]].get("phelper")] or [0]
         return rng.choice(cands)
 
     for j in range(1, n):
@@ -220,12 +240,18 @@ def gen_program(rng, feat):
                 if cands:
                     f = funcs[rng.choice(cands)]
                     f["body"].insert(rng.randrange(len(f["body"]) + 1), {"t": "shadow", "name": v})
+    if feat.get("tmpl"):
+        for fn in names:
+            if rng.random() < 0.35:
+                funcs[fn]["tmpl"] = {"n": 1, "style": rng.choice(["triple", "triple", "esc", "plain"])}
     if feat.get("lazy"):
         for fn in names:
             if funcs[fn]["kind"] != "class" and rng.random() < 0.3:
                 funcs[fn]["body"].insert(rng.randrange(len(funcs[fn]["body"]) + 1), {"t": "lazy"})
     if feat.get("loads"):
         _add_loads(prog, rng, feat)
+        if feat.get("threads"):
+            _thread_loads(prog, rng)
     _fix_rt_refs(prog, rng, feat)
     if feat.get("pathspell"):
         # the same path written in another way (trailing / doubled / leading separator)
@@ -247,6 +273,13 @@ def gen_program(rng, feat):
                             j = rng.choice(js)
                             f["body"][j], f["body"][i - 1] = f["body"][i - 1], f["body"][j]
     return prog
+
+
+def _thread_loads(prog, rng):
+    for f in prog["funcs"].values():
+        for it in f["body"]:
+            if it["t"] == "load" and rng.random() < 0.4:
+                it["thread"] = True
 
 
 def _add_loads(prog, rng, feat):
@@ -287,7 +320,7 @@ def _add_ref(prog, caller, callee, rng, feat, paths):
         it = {"t": "keep", "path": paths.pop(), "f": callee, "args": [],
               "multiline": feat["multiline"] and rng.random() < (0.9 if lay else 0.5)}
         if feat["pathvars"] and rng.random() < 0.3:
-            it["pathform"] = "var"
+            it["pathform"] = rng.choice(["var", "var", "obj"])
         kwmode = False
         for (pn, d) in g["params"]:
             has_default = d != ir.NODEFAULT
@@ -606,6 +639,8 @@ def gen_edit(rng, prog, kinds):
                 pool = ml if ml and rng.random() < 0.5 else (mixed if mixed and rng.random() < 0.5 else sites)
                 fn, i, j = rng.choice(pool)
                 cur = prog["funcs"][fn]["body"][i]["args"][j]["v"]
+                if isinstance(cur, (int, float)) and not isinstance(cur, bool) and cur != 0 and rng.random() < 0.3:
+                    return {"kind": "lit", "f": fn, "item": i, "arg": j, "value": -cur}      # only the sign changes
                 return {"kind": "lit", "f": fn, "item": i, "arg": j,
                         "value": rng.choice([x for x in SAFE_LITERALS if x != cur])}
         if k == "rtx":
@@ -616,6 +651,10 @@ def gen_edit(rng, prog, kinds):
                 fn, i, j = rng.choice(ml if ml and rng.random() < 0.5 else sites)
                 cur = prog["funcs"][fn]["body"][i]["args"][j].get("x")
                 return {"kind": "rtx", "f": fn, "item": i, "arg": j, "value": rng.choice([x for x in [2, 3, 5, 8] if x != cur])}
+        if k == "tmpl":
+            fns = [fn for fn in names if prog["funcs"][fn].get("tmpl")]
+            if fns:
+                return {"kind": "tmpl", "f": rng.choice(fns)}
         if k == "lzver" and ir.has_lazy(prog):
             return {"kind": "lzver"}
         if k == "addload":
@@ -738,6 +777,9 @@ def apply_edit(prog, e):
             a = p["funcs"][e["f"]]["body"][e["item"]]["args"][e["arg"]]
             if a["k"] in ("rt", "kwrt"):
                 a["x"] = e["value"]
+        elif k == "tmpl":
+            if p["funcs"][e["f"]].get("tmpl"):
+                p["funcs"][e["f"]]["tmpl"]["n"] += 1
         elif k == "lzver":
             p.setdefault("ext", {})["lz_ver"] = p.get("ext", {}).get("lz_ver", 1) + 1
         elif k == "addload":
